@@ -105,21 +105,36 @@ def strip_comments(s):
     return s
 
 
-def forbidden_tokens(cfg):
+def import_closure(roots):
+    """Project-local modules (files under lean/) transitively imported by the given modules."""
+    seen, todo = set(), list(roots)
+    while todo:
+        m = todo.pop()
+        if m in seen:
+            continue
+        path = os.path.join(LEAN, m.replace(".", "/") + ".lean")
+        if not os.path.exists(path):
+            continue
+        seen.add(m)
+        for line in open(path):
+            mm = re.match(r"\s*(?:public\s+)?import\s+(?:all\s+)?([\w.]+)", line)
+            if mm:
+                todo.append(mm.group(1))
+    return seen
+
+
+def forbidden_tokens(cfg, roots):
+    """grep sorry/admit/axiom/native_decide/… (outside comments and strings) in every project file the
+    property's theorems and drivers depend on."""
     hits = []
     allow_bv = set(cfg.get("allow_bv_decide_in", []))
-    for root, dirs, files in os.walk(LEAN):
-        dirs[:] = [d for d in dirs if d not in (".lake", "Audit")]
-        for fn in files:
-            if not fn.endswith(".lean"):
+    for m in sorted(import_closure(roots)):
+        rel = m.replace(".", "/") + ".lean"
+        for mm in FORBIDDEN.finditer(strip_comments(open(os.path.join(LEAN, rel)).read())):
+            tok = mm.group(0).strip()
+            if tok == "bv_decide" and rel in allow_bv:
                 continue
-            p = os.path.join(root, fn)
-            rel = os.path.relpath(p, LEAN)
-            for m in FORBIDDEN.finditer(strip_comments(open(p).read())):
-                tok = m.group(0).strip()
-                if tok == "bv_decide" and rel in allow_bv:
-                    continue
-                hits.append(f"{rel}: {tok}")
+            hits.append(f"{rel}: {tok}")
     return hits
 
 
@@ -162,7 +177,7 @@ def lean_check(pid, cfg, thorough):
             errs = re.findall(r"error: (\S+\.lean:\d+:\d+: .*)", o)
             r["broken"].append("lake build failed: " + " | ".join(errs[:8]))
             r["log"] += o[-6000:]
-    hits = forbidden_tokens(cfg)
+    hits = forbidden_tokens(cfg, list(mods) + [("Drv." + d[4:].upper()) if d.startswith("drv_") else d for d in drivers])
     if hits:
         r["ok"] = False
         r["broken"].append("forbidden tokens: " + ", ".join(hits[:10]))
